@@ -86,6 +86,7 @@ func (d *DelaySpec) e2e() *e2e.Delays {
 
 // Case is one self-contained case.
 type Case struct {
+	World string `json:"world,omitempty"` // "" = the chain with its default flags; "options" = every shape-changing flag set (options.go)
 	Kind string  `json:"kind"` // "forward" | "term" | "upgrade"
 	Row  string  `json:"row"`  // term: the row of the decision table to trigger
 	Req  ReqSpec `json:"req"`
@@ -205,6 +206,7 @@ type SeenClient struct {
 
 // Obs is everything observed for one case.
 type Obs struct {
+	Inconclusive bool `json:"-"` // the round trip says nothing (see roundTrip)
 	NUp      int           `json:"nUp"` // requests that reached any upstream under this case id
 	Up       *SeenUp       `json:"up,omitempty"`
 	Client   *SeenClient   `json:"client,omitempty"`
@@ -313,6 +315,9 @@ func (w *world) roundTrip(cs Case, id string, sc *script) Obs {
 		}
 		if err != nil {
 			o.Err = err.Error()
+			// the load-pressure GOAWAY filter tells HTTP/2 clients to reconnect; a request that cannot be replayed (a streamed
+			// body) and raced with the GOAWAY is then the client library's failure: inconclusive, never a verdict
+			o.Inconclusive = w.options && cs.Req.Proto == "h2" && strings.Contains(o.Err, "GOAWAY")
 			return
 		}
 		o.RawResp = resp
